@@ -1,26 +1,34 @@
-//@ fn DumpRegistry::record_plain
+//@ fn DumpRegistry::get_repo_path
 //@ spec
-    requires old(self).wf(), !old(self).rrdp_uris@.contains_key(*uri),
-             !old(self).rrdp_dirs@.contains(authority.view()),
+    requires old(self).wf(),
     ensures
-        // C30: the invariant (every assigned name is recorded as used; distinct repositories have distinct names) is kept
-        final(self).wf(),
-        // C30: the repository is recorded under the returned name, which was unused so far
-        final(self).rrdp_uris@ == old(self).rrdp_uris@.insert(*uri, authority.view()),
-        final(self).rrdp_dirs@ == old(self).rrdp_dirs@.insert(authority.view()),
-        res == joined(old(self).base_dir, authority.view()), final(self).base_dir == old(self).base_dir,
+        // C30: the registry invariant is kept by every registration
+        final(self).wf(), final(self).base_dir == old(self).base_dir,
+        // C30: the same repository always maps to the same directory: a known URI gets the recorded
+        // name and nothing changes
+        (rpki_notify is Some && old(self).rrdp_uris@.contains_key(*rpki_notify->Some_0)) ==>
+            res == joined(old(self).base_dir, old(self).rrdp_uris@[*rpki_notify->Some_0]@)
+            && final(self).rrdp_uris@ == old(self).rrdp_uris@ && final(self).rrdp_dirs@ == old(self).rrdp_dirs@,
+        // C30: a new URI is recorded under the name of the directory returned, and every other entry stays
+        (rpki_notify is Some && !old(self).rrdp_uris@.contains_key(*rpki_notify->Some_0)) ==>
+            final(self).rrdp_uris@.contains_key(*rpki_notify->Some_0)
+            && res == joined(old(self).base_dir, final(self).rrdp_uris@[*rpki_notify->Some_0]@)
+            && (forall|v: Https| old(self).rrdp_uris@.contains_key(v) ==>
+                    final(self).rrdp_uris@.contains_key(v) && final(self).rrdp_uris@[v] == old(self).rrdp_uris@[v]),
 //@ entry
         broadcast use axiom_https_key_model;
         broadcast use axiom_string_key_model;
 //@ fn DumpRegistry::record_suffixed
 //@ spec
     requires old(self).wf(), !old(self).rrdp_uris@.contains_key(*uri),
-             !old(self).rrdp_dirs@.contains(name@),
+             // the guarding condition of the block (the R7c anchor): the name is not in the used set
+             !old(self).rrdp_dirs@.contains(name),
     ensures
-        // C30: as above for a suffixed name
+        // C30: the invariant (every assigned name is recorded as used; distinct repositories have distinct names) is kept
         final(self).wf(),
-        final(self).rrdp_uris@ == old(self).rrdp_uris@.insert(*uri, name@),
-        final(self).rrdp_dirs@ == old(self).rrdp_dirs@.insert(name@),
+        // C30: the repository is recorded under the returned name, and that name is marked as used
+        final(self).rrdp_uris@ == old(self).rrdp_uris@.insert(*uri, name),
+        final(self).rrdp_dirs@ == old(self).rrdp_dirs@.insert(name),
         res == joined(old(self).base_dir, name@), final(self).base_dir == old(self).base_dir,
 //@ entry
         broadcast use axiom_https_key_model;
@@ -29,8 +37,8 @@
 impl DumpRegistry {
     // C30: every name assigned to a repository is in the used set, and two repositories never share a name
     spec fn wf(&self) -> bool {
-        &&& forall|u: Https| self.rrdp_uris@.contains_key(u) ==> self.rrdp_dirs@.contains(#[trigger] self.rrdp_uris@[u]@)
+        &&& forall|u: Https| self.rrdp_uris@.contains_key(u) ==> self.rrdp_dirs@.contains(#[trigger] self.rrdp_uris@[u])
         &&& forall|u1: Https, u2: Https| self.rrdp_uris@.contains_key(u1) && self.rrdp_uris@.contains_key(u2) && u1 != u2
-                ==> #[trigger] self.rrdp_uris@[u1]@ != #[trigger] self.rrdp_uris@[u2]@
+                ==> #[trigger] self.rrdp_uris@[u1] != #[trigger] self.rrdp_uris@[u2]
     }
 }
